@@ -409,4 +409,28 @@ theorem trace_returns_input_witness (I : Interp V) (a b : V) :
   refine ⟨rfl, ?_⟩
   simp [run, readInputs, kwGet, kwErase, runOps]
 
+/-- **Witness for seeded defect C18_9: a data-dependent op argument must be a program SLOT.**
+    The function is `f(x, y) = x - g(y)` (g = `neg`).  `pSlot` is what the tracer records (g(y) is an operation
+    whose result is a slot); `pBaked` freezes the trace-time value of g(y) (here for y = 2) into a constant, as
+    happens when a computed parameter is baked into a specialised op instance.  Both agree with the function on
+    the trace binding; on the fresh binding (x = 10, y = 5) the baked program returns 12, the function 15.
+    `trace_program_sound` speaks about ONE valuation: a program agreeing with the function on EVERY binding
+    needs every argument that depends on the inputs to be read from a slot. -/
+theorem baked_parameter_witness :
+    let I : Interp Int := ⟨fun _ => -2, fun _ x => -x, fun _ x y => x - y, fun _ => 0⟩
+    let pSlot : Prog := ⟨[], ["x", "y"], [(.op "neg", [1]), (.op "sub", [0, 2])]⟩
+    let pBaked : Prog := ⟨[0], ["x", "y"], [(.op "sub", [1, 0])]⟩
+    run I pSlot [("x", 10), ("y", 2)] = .ok 12 ∧ run I pBaked [("x", 10), ("y", 2)] = .ok 12 ∧
+    run I pSlot [("x", 10), ("y", 5)] = .ok 15 ∧ run I pBaked [("x", 10), ("y", 5)] = .ok 12 := by
+  refine ⟨rfl, rfl, rfl, rfl⟩
+
+/-- **The trace is keyed by object identity** (observed on the tree, counted by the harness): when two ops
+    return the SAME object (numpy's `True_` singleton) only the first entry survives `trace.setdefault`, and
+    the root resolves to it.  Recorded trace of `and_(any(x), all(y))` with all three results being object 2:
+    the program is `any(x)` and never reads `y`. -/
+theorem trace_singleton_merge_witness :
+    traceCompile (fun _ => true) false [⟨2, .op "any", [0]⟩] 2 [("x", 0), ("y", 1)]
+      = .ok ⟨[], ["x", "y"], [(.op "any", [0])]⟩ := by
+  rfl
+
 end FV.Props.C18
